@@ -20,6 +20,27 @@ CLAIMED = {
             "Bounded: type parameters of the encoder harnesses are small concrete instances; allocation-proportional arguments of the "
             "length-accessor harnesses are bounded by 2^24. DP budget constructors (BigUint rationals) and verify_init argument checks "
             "are outside. Trusted: Kani/CBMC/CaDiCaL, rustc MIR.", "DESIGN.md §4 C16", False),
+    "C09": ("bounded symbolic model checking (Kani/CBMC) of the generic field arithmetic: exhaustive at 8/16-bit word sizes, full-width add/sub/neg/reducedness and decoding accept sets",
+            "The crate's generic arithmetic (fp::ops, make_field!) is decided for every operand pair at 8-bit word sizes against `%` (add, sub, neg, "
+            "Montgomery mul, montgomery/residue, pow, inv; primes 17 and 251), at 16 bit against an independent reference REDC, and at the shipped "
+            "32/64/128-bit parameter sets for add/sub/neg/modp, reducedness of products, Eq/ct_eq/select/negate consistency and the byte-decoding accept "
+            "sets (accepted iff LE(bytes) < p, incl. Field255's constant-time comparison). Every operand is symbolic, so limb and modulus boundaries are covered by construction.",
+            "Full-width correctness of the Montgomery *product value* (REDC relation at 32/64/128 bit) is the subject of engine M and is only claimed where the evidence "
+            "lists the M lemmas; pow/inv are decided at 8-bit words only; Field255 mul/inv are fiat-crypto's (trusted); primality of p is not decided.",
+            "DESIGN.md §4 C09", True),
+    "C10": ("bounded symbolic model checking (Kani/CBMC) of the generic NTT/Lagrange routines over GF(17) against textbook oracles",
+            "ntt, ntt_set_s, ntt_inv, nth_root_powers, poly_eval_lagrange_batched, extend_values_to_power_of_2, double_evaluations, poly_mul_lagrange, "
+            "poly_eval_monomial and poly_interpret_eval (the crate's generic code at F = GF(17)) are compared with direct Horner evaluation / naive Lagrange "
+            "interpolation written in plain integer arithmetic: all input vectors for n <= 4, at most two non-zero entries (positions and values symbolic) for n = 8, 16; "
+            "evaluation points include the interpolation nodes; size errors for every size value.",
+            "Field = GF(17) (hook instantiation of the unchanged generic code), sizes <= 16, sparse inputs above n = 4 (stated bound, not a linearity proof). "
+            "The SizeTooLarge limits (2^19/2^20) are outside Kani's reach and are not claimed here.", "DESIGN.md §4 C10", True),
+    "C13": ("bounded symbolic model checking (Kani/CBMC) of merge/accumulate/aggregate with arbitrary valid field representatives",
+            "AggregateShare::{merge,accumulate} for Field64/Field128/FieldPrio2 (length-2 vectors, every element an arbitrary representative < p): commutative, "
+            "associative, zero identity, accumulate = merge, element-wise sums; refusal on length mismatch leaves the accumulator bit-identical; the default "
+            "Aggregator::aggregate for Prio3Count and Prio2 equals any partition into batches merged in any order and checks every share including the first; "
+            "Poplar1FieldVec refuses Inner/Leaf and length mismatches unchanged.",
+            "Vector lengths <= 3, three shares; Poplar1 leaf (Field255) sums are outside; unshard's decode step is C01's subject.", "DESIGN.md §4 C13", False),
 }
 
 NOT_APPLICABLE = {
